@@ -47,6 +47,10 @@ pub fn run(ctx: &Ctx) -> Value {
     let mut sh = Tw::new(&ctx.out, "Trace_Show", ctx.t(2_500, 15_000));
     let mut rng = Rng::new(ctx.seed ^ 0x04);
     let us = instants(&mut rng, ctx.t(30, 3_000));
+    tw.emit(ev("defaults", json!({}), || json!({"utc": ndt(DateTime::<Utc>::default().naive_utc()), "fixed": ndt(DateTime::<FixedOffset>::default().naive_utc()), "fixed_off": DateTime::<FixedOffset>::default().offset().local_minus_utc(),
+        "local": ndt(DateTime::<chrono::Local>::default().naive_utc()), "ndt": ndt(NaiveDateTime::default()), "date": dn(chrono::NaiveDate::default()), "time": tod(chrono::NaiveTime::default()),
+        "epoch": ndt(DateTime::UNIX_EPOCH.naive_utc()), "min": ndt(DateTime::<Utc>::MIN_UTC.naive_utc()), "max": ndt(DateTime::<Utc>::MAX_UTC.naive_utc()),
+        "nmin": ndt(NaiveDateTime::MIN), "nmax": ndt(NaiveDateTime::MAX), "tmin": tod(chrono::NaiveTime::MIN)})));
     let mut n_ev = [0usize; 4];
     for (i, &u) in us.iter().enumerate() {
         for &off in OFFS.iter() {
@@ -57,6 +61,23 @@ pub fn run(ctx: &Ctx) -> Value {
             // the same through the other constructor and the FixedOffset view (timezone() hands back the zone, here the offset itself)
             tw.emit(ev("from_utc", json!({"u": ndt(u), "off": off, "route": "from_naive_utc_and_offset"}), || { let q = DateTime::<FixedOffset>::from_naive_utc_and_offset(u, fo).fixed_offset();
                 json!({"r": ndt(q.naive_utc()), "off2": q.timezone().local_minus_utc(), "utcback": ndt(chrono::DateTime::<chrono::Utc>::from(q).naive_utc())}) }));
+            // conversions between the zone-aware types (From impls) and comparisons ACROSS types: the instant is all that matters
+            if i % 2 == 0 || i < 40 {
+                tw.emit(ev("conv", json!({"u": ndt(u), "off": off}), || {
+                    let utc: DateTime<Utc> = DateTime::<Utc>::from(z);
+                    let fixed: DateTime<FixedOffset> = DateTime::<FixedOffset>::from(utc);
+                    let local: DateTime<chrono::Local> = DateTime::<chrono::Local>::from(z);
+                    let lu: DateTime<Utc> = DateTime::<Utc>::from(local);
+                    let lf: DateTime<FixedOffset> = DateTime::<FixedOffset>::from(local);
+                    let ul: DateTime<chrono::Local> = DateTime::<chrono::Local>::from(utc);
+                    let nd: chrono::NaiveDate = chrono::NaiveDate::from(u);
+                    let dn_: NaiveDateTime = NaiveDateTime::from(u.date());
+                    json!({"fu": ndt(utc.naive_utc()), "uf": ndt(fixed.naive_utc()), "uf_off": fixed.offset().local_minus_utc(), "fl": ndt(local.naive_utc()), "lu": ndt(lu.naive_utc()),
+                           "lf": ndt(lf.naive_utc()), "lf_off_same": lf.offset().local_minus_utc() == chrono::Offset::fix(local.offset()).local_minus_utc(), "ul": ndt(ul.naive_utc()),
+                           "nd": dn(nd), "dn": ndt(dn_),
+                           "eq_x": z == utc && utc == z && fixed == local && local == z, "cmp_x": z.partial_cmp(&utc) == Some(std::cmp::Ordering::Equal) && local.partial_cmp(&fixed) == Some(std::cmp::Ordering::Equal),
+                           "since_x": dur(z.signed_duration_since(utc)), "since_l": dur(local.signed_duration_since(z))}) }));
+            }
             // wall-clock accessors work in the one-day headroom too
             tw.emit(ev("wall", json!({"u": ndt(u), "off": off}), || { let iw = z.iso_week(); json!({"y": z.year(), "mo": z.month(), "d": z.day(), "ord": z.ordinal(), "wd": wd(z.weekday()),
                 "iy": iw.year(), "iw": iw.week(), "h": z.hour(), "mi": z.minute(), "s": z.second(), "ns": z.nanosecond()}) }));
